@@ -45,7 +45,15 @@ M = [
  ('c14_dtor_no_join', 'C14', 'src/SocketServer.cpp', "		_thread->join(); // the accept thread still uses its Thread object and this server until it has ended\n", ""),
  ('c14_handler_delete_this', 'C14', 'src/SocketServer.cpp', "		--_server->_numClients;\n	}", "		--_server->_numClients;\n		{ Lock lock(_server->_finishedMutex); _server->_finishedClients.removeOne(this); }\n		delete this;\n	}"),
  ('c14_running_ignores_clients', 'C14', 'src/SocketServer.cpp', "} while (_running || _numClients > 0);", "} while (_running);"),
- ('c14_seq_serve_twice_on_burst', 'C14', 'src/SocketServer.cpp', "			for (int i = 0; i < n; i++)\n			{\n				Socket client = _sockets.activeAt(i).accept();", "			for (int i = 0; i < n; i++)\n			{\n				Socket client = _sockets.activeAt(0).accept();"),
+ ('c14_seq_serve_twice_on_burst', 'C14', 'src/SocketServer.cpp', "			for (int i = 0; i < n; i++)\n			{\n				Socket client = _sockets.activeAt(i).accept();", "			for (int i = 0; i < n; i++)\n			{\n				Socket client = _sockets.activeAt(0).accept();"), ('c11_len126_boundary', 'C11', 'src/WebSocket.cpp', "	if (len < 126)\n		buf << byte(masked | (byte)len);", "	if (len <= 126)\n		buf << byte(masked | (byte)len);"),
+ ('c11_len16_boundary', 'C11', 'src/WebSocket.cpp', "	else if (len < (1 << 16))", "	else if (len < 65535)"),
+ ('c11_mask_tail_dropped', 'C11', 'src/WebSocket.cpp', "		int n = data.length() / 4 + 1;", "		int n = data.length() / 4;"),
+ ('c11_recv_mask_tail_dropped', 'C11', 'src/WebSocket.cpp', "			int n = buffer.length() / 4 + 1;", "			int n = buffer.length() / 4;"),
+ ('c11_cont_replaces', 'C11', 'src/WebSocket.cpp', "		case 0: // continuation\n		case 1: // text", "		case 0: // continuation\n			msg = WebSocketMsg(buffer);\n			inMessage = !fin;\n			break;\n		case 1: // text"),
+ ('c11_accept_guid_typo', 'C11', 'src/WebSocket.cpp', "258EAFA5-E914-47DA-95CA-C5AB0DC85B11", "258EAFA5-E914-47DA-95CA-C5AB0DC85B12"),
+ ('c11_ping_ends_message', 'C11', 'src/WebSocket.cpp', "		if (fin && !(inMessage && opcode >= 8))", "		if (fin)"),
+ ('c11_len64_cast', 'C11', 'src/WebSocket.cpp', "			if (len64 < 0 || len64 > 0x7ffffff0)", "			if (len64 < 0)"),
+ ('c11_mask_zero_key_shortcut', 'C11', 'src/WebSocket.cpp', "		if (masked)\n		{\n			swapBytes(mask);", "		if (masked && (mask & 0xff))\n		{\n			swapBytes(mask);"),
 ]
 
 
